@@ -40,6 +40,8 @@ class MultiVector:
             for key in list(items.keys()):
                 if key not in algebra.canon2bin:
                     target, swaps = algebra._blade2canon(key)
+                    if target is None:
+                        raise KeyError(f'{key} is not a basis blade of this algebra.')
                     value = items.pop(key)
                     items[target] = - value if swaps % 2 else value
 
